@@ -425,6 +425,8 @@ def cross_entropy_loss_backward(grad: np.ndarray, y_pred: np.ndarray, y_true: np
 # ************************
     
 def max_pool1d_forward(a, kernel_size, stride, padding, dilation):
+    if np.any(2 * np.array(padding) > np.array(kernel_size)): # some window would lie entirely in the padding and return -inf
+        raise ValueError(f"padding ({padding}) should be at most half of the kernel size ({kernel_size})")
     windows = extract_windows(a, kernel_size, stride, padding, dilation, pad_value=-np.inf)
     maxed_windows = windows.max(axis=-1).transpose(1, 2, 0)
     return maxed_windows, a.shape, windows
@@ -449,6 +451,8 @@ def avg_pool1d_backward(grad, kernel_size, stride, padding, dilation, a_shape, w
 
 
 def max_pool2d_forward(a, kernel_size, stride, padding, dilation):
+    if np.any(2 * np.array(padding) > np.array(kernel_size)): # some window would lie entirely in the padding and return -inf
+        raise ValueError(f"padding ({padding}) should be at most half of the kernel size ({kernel_size})")
     windows = extract_windows(a, kernel_size, stride, padding, dilation, pad_value=-np.inf)
     maxed_windows = windows.reshape(*windows.shape[:-2], -1).max(axis=-1).transpose(2, 3, 0, 1)
     return maxed_windows, a.shape, windows
